@@ -63,8 +63,9 @@ def generate(rng, prop, tier):
         elif r < 0.77:
             ops.append({"op": "set_params_roundtrip", "est": tgt, "faults": []})
         elif r < 0.87:
-            field = rng.choice(sorted(CONFIG_FIELDS))
-            ops.append({"op": "set_params_config", "est": tgt, "field": field, "value": rng.choice(CONFIG_FIELDS[field]), "faults": []})
+            fields = rng.sample(sorted(CONFIG_FIELDS), rng.choice([1, 1, 2, 2, 3]))
+            rng.shuffle(fields)
+            ops.append({"op": "set_params_config", "est": tgt, "fields": {f: rng.choice(CONFIG_FIELDS[f]) for f in fields}, "faults": []})
         elif r < 0.93:
             ops.append({"op": "set_params_unknown", "est": tgt, "name": rng.choice(["bogus", "max_dt", "process_noises", "Config", "symbolic_models"]), "faults": ["unknown_param"]})
         else:
@@ -247,17 +248,21 @@ def execute(schedule) -> Result:
                     res.add("C17", "roundtrip", "C17:py:roundtrip", i, "set_params(**get_params()) changes nothing", _diffkeys(before, snapshot(est)))
                 res.abstract.append("roundtrip")
             elif kind == "set_params_config":
+                fields = op["fields"] if "fields" in op else {op["field"]: op["value"]}
+                tag = "+".join(sorted(fields)) if len(fields) == 1 else f"{len(fields)}_fields_in_one_call"
                 try:
-                    est.set_params(**{op["field"]: op["value"]})
+                    est.set_params(**fields)
                 except Exception as e:  # noqa: BLE001
-                    res.add("C17", "config_field_refused", f"C17:py:config_field_refused:{op['field']}", i, f"set_params({op['field']}=...) accepted", f"{type(e).__name__}: {str(e)[:120]}")
+                    res.add("C17", "config_field_refused", f"C17:py:config_field_refused:{tag}", i, f"set_params({fields}) accepted", f"{type(e).__name__}: {str(e)[:120]}")
                     continue
                 want = json.loads(before)
-                want["config"][op["field"]] = repr(op["value"])
+                for f_, v_ in fields.items():
+                    want["config"][f_] = repr(v_)
                 after = json.loads(snapshot(est))
                 if after != want:
-                    res.add("C17", "config_field", f"C17:py:config_field:{op['field']}", i, f"exactly config.{op['field']} becomes {op['value']!r}", _diffkeys(json.dumps(want, sort_keys=True), json.dumps(after, sort_keys=True)))
-                res.abstract.append(f"cfg:{op['field']}")
+                    res.add("C17", "config_field", f"C17:py:config_field:{tag}", i, f"exactly the configuration field(s) {fields} change", _diffkeys(json.dumps(want, sort_keys=True), json.dumps(after, sort_keys=True)))
+                res.stats[f"probe:config_fields_per_call={len(fields)}"] += 1
+                res.abstract.append(f"cfg:{tag}")
             elif kind == "set_params_unknown":
                 try:
                     est.set_params(**{op["name"]: 1.0})
